@@ -3,7 +3,7 @@ import json, os, random
 from tools import vlib, t3
 
 MODULE = "PropC17"
-THEOREMS = ["C17_code_conforms", "C17_bytes", "C17_progress", "C17_terminates", "C17_rerun_untouched", "C17_rerun_drained", "C17_drain_concurrent_progress", "C17_drain_sequential_refuted_before_repair", "C17_pairs_bytes", "C17_pairs_rerun_untouched", "C17_pairs_progress", "C17_pairs_maximal", "C17_pairs_terminate", "C17_pairs_example", "C17_pairs_too_few_slots_refuted", "C17_run_ok", "C17_one_slot_refuted", "C17_audit_race_refuted", "C17_rerun_without_drain_refuted"]
+THEOREMS = ["C17_code_conforms", "C17_bytes", "C17_progress", "C17_terminates", "C17_rerun_untouched", "C17_rerun_drained", "C17_drain_concurrent_progress", "C17_drain_sequential_refuted_before_repair", "C17_pairs_bytes", "C17_pairs_rerun_untouched", "C17_pairs_progress", "C17_pairs_maximal", "C17_pairs_terminate", "C17_pairs_example", "C17_pairs_too_few_slots_refuted", "C17_run_ok", "C17_one_slot_refuted", "C17_audit_race_refuted", "C17_rerun_without_drain_refuted", "C17_cone_conforms"]
 
 
 def case(args):
